@@ -118,3 +118,440 @@ Proof.
     specialize (IH (S i) x a2 l' W). unfold gtb in H. cbn [ltb R13_ops] in H.
     destruct (Rltb_spec (eps RO) y); inversion H; subst l; [constructor; [exact r|exact IH]|exact IH].
 Qed.
+
+(* ------------------------------------------------------------------------------------------------ joint membership *)
+Lemma nth_error_app_some {A} (l l' : list A) k x : nth_error l k = Some x -> nth_error (l ++ l') k = Some x.
+Proof. intros H. rewrite nth_error_app1; [exact H|]. apply nth_error_Some. congruence. Qed.
+
+Lemma joint_row_forward (f : R -> R -> R) ne i nec mat a ci rest : forall vs Q room inv it ii,
+  length Q = (mat + it)%nat -> length room = length vs ->
+  nth_error Q i = Some a ->
+  (forall k b, nth_error vs k = Some b -> nth_error Q (ne + ii + k) = Some b) ->
+  joint_row RO f ne i nec ii mat ({| sidx := ci; sval := Q ++ room ++ rest |}, inv, it) (length vs) =
+  Ok ({| sidx := ci; sval := (Q ++ map (f a) vs) ++ rest |}, fold_left Rplus (map (f a) vs) inv, (it + length vs)%nat).
+Proof.
+  induction vs as [|b vs IH]; intros Q room inv it ii HQ Hroom Ha Hb.
+  - destruct room; [|discriminate]. cbn. rewrite app_nil_r, Nat.add_0_r. reflexivity.
+  - destruct room as [|r0 room]; [discriminate|]. cbn [length] in Hroom. cbn [joint_row length].
+    unfold rd_val at 1. unfold rd. cbn [sval]. rewrite (nth_error_app_some Q _ i a Ha). cbn [of_opt bind].
+    unfold rd_val at 1. unfold rd. cbn [sval].
+    pose proof (Hb 0%nat b eq_refl) as Hb0. rewrite Nat.add_0_r in Hb0.
+    rewrite (nth_error_app_some Q _ _ b Hb0). cbn [of_opt bind].
+    unfold wr_val. cbn [sval sidx app]. rewrite (upd_app Q r0 (room ++ rest) (f a b) (mat + it) HQ). cbn [option_map of_opt bind].
+    rewrite (app_cons_r Q).
+    rewrite (IH (Q ++ [f a b]) room (add RO inv (f a b)) (S it) (S ii)).
+    + cbn [map fold_left]. rewrite <- !app_assoc. cbn [app]. f_equal. f_equal. lia.
+    + rewrite app_length. cbn. lia.
+    + lia.
+    + apply nth_error_app_some. exact Ha.
+    + intros k b' Hk. apply nth_error_app_some. replace (ne + S ii + k)%nat with (ne + ii + S k)%nat by lia. apply Hb. exact Hk.
+Qed.
+
+(* weights of one row / the whole matrix, row-major, and the consequents they multiply *)
+Definition wrow (f : R -> R -> R) (a : R) (vec : list R) : list R := map (f a) vec.
+Definition wmat (f : R -> R -> R) (ve vec : list R) : list R := flat_map (fun a => wrow f a vec) ve.
+
+Lemma wmat_length f ve vec : length (wmat f ve vec) = (length ve * length vec)%nat.
+Proof. unfold wmat, wrow. induction ve as [|a ve IH]; cbn; [reflexivity|]. rewrite app_length, map_length, IH. reflexivity. Qed.
+
+Lemma wmat_cons f a ve vec : wmat f (a :: ve) vec = map (f a) vec ++ wmat f ve vec.
+Proof. reflexivity. Qed.
+
+Lemma fold_left_Rplus_app l1 l2 acc : fold_left Rplus (l1 ++ l2) acc = fold_left Rplus l2 (fold_left Rplus l1 acc).
+Proof. apply fold_left_app. Qed.
+
+Lemma joint_rows_forward (f : R -> R -> R) nr ne mat vec Is rest : forall es ves Ip Q room inv it i,
+  length es = length ves ->
+  length Ip = i -> length Q = (mat + it)%nat -> length room = (length ves * length vec)%nat ->
+  (forall k a, nth_error ves k = Some a -> nth_error Q (i + k) = Some a) ->
+  (forall k b, nth_error vec k = Some b -> nth_error Q (ne + k) = Some b) ->
+  joint_rows RO f nr ne (length vec) i mat ({| sidx := Ip ++ es ++ Is; sval := Q ++ room ++ rest |}, inv, it) (length ves) =
+  Ok ({| sidx := Ip ++ map (fun k => (k * nr)%nat) es ++ Is; sval := (Q ++ wmat f ves vec) ++ rest |},
+      fold_left Rplus (wmat f ves vec) inv, (it + length ves * length vec)%nat).
+Proof.
+  induction es as [|e0 es IH]; intros ves Ip Q room inv it i Hlen HIp HQ Hroom Hve Hvec.
+  - destruct ves; [|discriminate]. cbn in Hroom. destruct room; [|discriminate]. cbn. rewrite app_nil_r, Nat.add_0_r. reflexivity.
+  - destruct ves as [|a ves]; [discriminate|]. cbn [length] in Hlen, Hroom |- *. cbn [joint_rows].
+    (* split the room: one row now, the others later *)
+    assert (Hr : room = firstn (length vec) room ++ skipn (length vec) room) by (symmetry; apply firstn_skipn).
+    set (room1 := firstn (length vec) room) in *. set (room2 := skipn (length vec) room) in *.
+    assert (L1 : length room1 = length vec) by (unfold room1; rewrite firstn_length; lia).
+    assert (L2 : length room2 = (length ves * length vec)%nat) by (unfold room2; rewrite skipn_length; lia).
+    rewrite Hr. rewrite <- app_assoc.
+    pose proof (Hve 0%nat a eq_refl) as Ha0. rewrite Nat.add_0_r in Ha0.
+    rewrite (joint_row_forward f ne i (length vec) mat a (Ip ++ (e0 :: es) ++ Is) (room2 ++ rest) vec Q room1 inv it 0 HQ L1 Ha0).
+    2:{ intros k b Hk. rewrite Nat.add_0_r. apply Hvec. exact Hk. }
+    cbn [bind].
+    unfold rd_idx, rd. cbn [sidx app]. rewrite nth_error_app2 by lia. rewrite HIp, Nat.sub_diag. cbn [nth_error of_opt bind].
+    unfold wr_idx. cbn [sidx sval]. rewrite (upd_app Ip e0 (es ++ Is) (e0 * nr)%nat i HIp). cbn [option_map of_opt bind].
+    rewrite (app_cons_r Ip).
+    rewrite (IH ves (Ip ++ [(e0 * nr)%nat]) (Q ++ map (f a) vec) room2 (fold_left Rplus (map (f a) vec) inv) (it + length vec)%nat (S i)).
+    + cbn [map]. rewrite wmat_cons, fold_left_Rplus_app. rewrite <- !app_assoc. cbn [app]. f_equal. f_equal. lia.
+    + lia.
+    + rewrite app_length. cbn. lia.
+    + rewrite app_length, map_length. lia.
+    + exact L2.
+    + intros k a' Hk. apply nth_error_app_some. replace (S i + k)%nat with (i + S k)%nat by lia. apply Hve. exact Hk.
+    + intros k b Hk. apply nth_error_app_some. apply Hvec. exact Hk.
+Qed.
+
+(* ------------------------------------------------------------------------------------------------ defuzzifier *)
+Definition dotacc (ws cs : list R) (k : R) : R := fold_left (fun acc wc => acc + fst wc * snd wc) (combine ws cs) k.
+Definition cmat (m : list R) (rows js : list nat) : list R := flat_map (fun r => map (fun j => nth (r + j) m 0) js) rows.
+
+Lemma combine_app {A B} (l1 l1' : list A) (l2 l2' : list B) :
+  length l1 = length l2 -> combine (l1 ++ l1') (l2 ++ l2') = combine l1 l2 ++ combine l1' l2'.
+Proof.
+  revert l2. induction l1 as [|x l1 IH]; intros [|y l2] H; try discriminate; cbn; [reflexivity|].
+  f_equal. apply IH. cbn in H. lia.
+Qed.
+Lemma dotacc_app ws ws' cs cs' k : length ws = length cs -> dotacc (ws ++ ws') (cs ++ cs') k = dotacc ws' cs' (dotacc ws cs k).
+Proof. intros H. unfold dotacc. rewrite combine_app by exact H. apply fold_left_app. Qed.
+
+Lemma defuzz_row_forward m c ne nec mat row : forall ws js k it ii,
+  length ws = length js ->
+  (forall t w, nth_error ws t = Some w -> nth_error (sval c) (mat + it + t) = Some w) ->
+  (forall t j, nth_error js t = Some j -> nth_error (sidx c) (ne + ii + t) = Some j) ->
+  (forall j, In j js -> (row + j < length m)%nat) ->
+  defuzz_row RO m c ne nec ii mat row (k, it) (length ws) =
+  Ok (dotacc ws (map (fun j => nth (row + j) m 0) js) k, (it + length ws)%nat).
+Proof.
+  induction ws as [|w ws IH]; intros js k it ii Hl Hw Hj Hm.
+  - destruct js; [|discriminate]. cbn. rewrite Nat.add_0_r. reflexivity.
+  - destruct js as [|j js]; [discriminate|]. cbn [length] in Hl. cbn [defuzz_row length].
+    unfold rd_val, rd. pose proof (Hw 0%nat w eq_refl) as H0. rewrite Nat.add_0_r in H0. rewrite H0. cbn [of_opt bind].
+    unfold rd_idx, rd. pose proof (Hj 0%nat j eq_refl) as J0. rewrite Nat.add_0_r in J0. rewrite J0. cbn [of_opt bind].
+    unfold rd. rewrite (nth_error_nth' m 0 (Hm j (or_introl eq_refl))). cbn [of_opt bind].
+    rewrite (IH js (add RO k (mul RO w (nth (row + j) m 0))) (S it) (S ii)).
+    + cbn [map]. unfold dotacc. cbn [combine fold_left fst snd]. f_equal. f_equal. lia.
+    + lia.
+    + intros t w' Ht. replace (mat + S it + t)%nat with (mat + it + S t)%nat by lia. apply Hw. exact Ht.
+    + intros t j' Ht. replace (ne + S ii + t)%nat with (ne + ii + S t)%nat by lia. apply Hj. exact Ht.
+    + intros j' Hj'. apply Hm. right. exact Hj'.
+Qed.
+
+Lemma cmat_cons m r rows js : cmat m (r :: rows) js = map (fun j => nth (r + j) m 0) js ++ cmat m rows js.
+Proof. reflexivity. Qed.
+
+Lemma defuzz_rows_forward m c ne mat (f : R -> R -> R) vec js : forall rows ves k it i,
+  length rows = length ves -> length js = length vec ->
+  (forall t r, nth_error rows t = Some r -> nth_error (sidx c) (i + t) = Some r) ->
+  (forall t w, nth_error (wmat f ves vec) t = Some w -> nth_error (sval c) (mat + it + t) = Some w) ->
+  (forall t j, nth_error js t = Some j -> nth_error (sidx c) (ne + t) = Some j) ->
+  (forall r j, In r rows -> In j js -> (r + j < length m)%nat) ->
+  defuzz_rows RO m c ne (length js) i mat (k, it) (length rows) =
+  Ok (dotacc (wmat f ves vec) (cmat m rows js) k, (it + length rows * length js)%nat).
+Proof.
+  induction rows as [|r rows IH]; intros ves k it i Hl Hjs Hr Hw Hj Hm.
+  - destruct ves; [|discriminate]. cbn. rewrite Nat.add_0_r. reflexivity.
+  - destruct ves as [|a ves]; [discriminate|]. cbn [length] in Hl. cbn [defuzz_rows length].
+    unfold rd_idx, rd. pose proof (Hr 0%nat r eq_refl) as R0. rewrite Nat.add_0_r in R0. rewrite R0. cbn [of_opt bind].
+    assert (Lw : length (map (f a) vec) = length js) by (rewrite map_length; lia).
+    rewrite <- Lw at 2.
+    rewrite (defuzz_row_forward m c ne (length js) mat r (map (f a) vec) js k it 0 Lw).
+    + cbn [bind]. rewrite (IH ves _ (it + length (map (f a) vec))%nat (S i)).
+      * rewrite wmat_cons, cmat_cons. rewrite dotacc_app by (rewrite !map_length; lia). f_equal. f_equal. rewrite Lw. lia.
+      * lia.
+      * exact Hjs.
+      * intros t r' Ht. replace (S i + t)%nat with (i + S t)%nat by lia. apply Hr. exact Ht.
+      * intros t w Ht. replace (mat + (it + length (map (f a) vec)) + t)%nat with (mat + it + (length (map (f a) vec) + t))%nat by lia.
+        apply Hw. rewrite wmat_cons. rewrite nth_error_app2 by lia. replace (length (map (f a) vec) + t - length (map (f a) vec))%nat with t by lia. exact Ht.
+      * exact Hj.
+      * intros r' j Hr' Hj'. apply Hm; [right; exact Hr'|exact Hj'].
+    + intros t w Ht. apply Hw. rewrite wmat_cons. apply nth_error_app_some. exact Ht.
+    + intros t j Ht. rewrite Nat.add_0_r. apply Hj. exact Ht.
+    + intros j Hj'. apply Hm; [left; reflexivity|exact Hj'].
+Qed.
+
+(* ------------------------------------------------------------------------------------------------ a_pid_fuzzy_out_ *)
+Definition sized (s : fuzzy (T := R)) : Prop :=
+  length (sidx (sc s)) = idx_cells (nfuzz s) /\ length (sval (sc s)) = val_cells (nfuzz s).
+Definition rules_ok (s : fuzzy (T := R)) : Prop :=
+  (forall m, mkp s = Some m -> length m = (nrule s * nrule s)%nat) /\
+  (forall m, mki s = Some m -> length m = (nrule s * nrule s)%nat) /\
+  (forall m, mkd s = Some m -> length m = (nrule s * nrule s)%nat).
+
+(* joint membership weights w_ij (row-major over the active sets of e, then of ec), their sum, the consequents m_ij *)
+Definition jw (s : fuzzy (T := R)) (ae aec : list (nat * R)) : list R :=
+  wmat (fuzzy_opr RO (opr s)) (map snd ae) (map snd aec).
+Definition jsum (s : fuzzy (T := R)) ae aec : R := fold_left Rplus (jw s ae aec) 0.
+Definition jcons (s : fuzzy (T := R)) (m : list R) (ae aec : list (nat * R)) : list R :=
+  cmat m (map (fun k => (k * nrule s)%nat) (map fst ae)) (map fst aec).
+(* the offset a_pid_fuzzy_out_ adds to one base gain: (sum of w_ij * m_ij) * (1 / sum of w_ij); 0 for a NULL rule base *)
+Definition goff (s : fuzzy (T := R)) (m : option (list R)) ae aec : R :=
+  match m with
+  | None => 0
+  | Some l => dotacc (jw s ae aec) (jcons s l ae aec) 0 * (1 / jsum s ae aec)
+  end.
+Definition fires (s : fuzzy (T := R)) ae aec : Prop := ae <> [] /\ aec <> [] /\ 0 < jsum s ae aec.
+
+Lemma split_room {A} (l : list A) k : (k <= length l)%nat ->
+  l = firstn k l ++ skipn k l /\ length (firstn k l) = k /\ length (skipn k l) = (length l - k)%nat.
+Proof. intros H. split; [symmetry; apply firstn_skipn|]. split; [apply firstn_length_le; exact H|apply skipn_length]. Qed.
+
+Lemma defuzz_forward s m c ne mat ae aec inv :
+  (forall l, m = Some l -> length l = (nrule s * nrule s)%nat) ->
+  Forall (fun q => (fst q < nrule s)%nat) ae -> Forall (fun q => (fst q < nrule s)%nat) aec ->
+  ne = length ae ->
+  (forall t r, nth_error (map (fun k => (k * nrule s)%nat) (map fst ae)) t = Some r -> nth_error (sidx c) (0 + t) = Some r) ->
+  (forall t w, nth_error (jw s ae aec) t = Some w -> nth_error (sval c) (mat + 0 + t) = Some w) ->
+  (forall t j, nth_error (map fst aec) t = Some j -> nth_error (sidx c) (ne + t) = Some j) ->
+  defuzz RO m c ne (length aec) mat inv =
+  Ok (match m with None => 0 | Some l => dotacc (jw s ae aec) (jcons s l ae aec) 0 * inv end).
+Proof.
+  intros Hm Fe Fec Hne Hr Hw Hj. subst ne. destruct m as [l|]; [|reflexivity]. cbn [defuzz]. change (ofZ RO 0) with 0.
+  specialize (Hm l eq_refl).
+  pose proof (defuzz_rows_forward l c (length ae) mat (fuzzy_opr RO (opr s)) (map snd aec) (map fst aec)
+                (map (fun k => (k * nrule s)%nat) (map fst ae)) (map snd ae) 0 0%nat 0%nat) as D.
+  rewrite !map_length in D. rewrite D; [ | reflexivity | reflexivity | exact Hr | exact Hw | exact Hj | ].
+  - cbn [bind fst]. reflexivity.
+  - intros r j Hr' Hj'. rewrite Hm.
+    apply in_map_iff in Hr'. destruct Hr' as (k & <- & Hk). apply in_map_iff in Hk. destruct Hk as (q & <- & Hq).
+    apply in_map_iff in Hj'. destruct Hj' as (q' & <- & Hq').
+    rewrite Forall_forall in Fe, Fec. specialize (Fe q Hq). specialize (Fec q' Hq'). cbn in Fe, Fec. nia.
+Qed.
+
+Definition firesb (s : fuzzy (T := R)) ae aec : bool :=
+  negb (Nat.eqb (length ae) 0) && negb (Nat.eqb (length aec) 0) && Rltb 0 (jsum s ae aec).
+Definition gsel (s : fuzzy (T := R)) m ae aec : R := if firesb s ae aec then goff s m ae aec else 0.
+
+Theorem fuzzy_out_forward s ec e ae aec :
+  sized s -> rules_ok s ->
+  walk_spec (nrule s) 0 e (me s) = Some ae -> walk_spec (nrule s) 0 ec (mec s) = Some aec ->
+  (length ae <= nfuzz s)%nat -> (length aec <= nfuzz s)%nat ->
+  exists c', (length (sidx c') = idx_cells (nfuzz s) /\ length (sval c') = val_cells (nfuzz s)) /\
+    fuzzy_out_ RO s ec e =
+      Ok (fuzzy_exit RO s c' (gsel s (mkp s) ae aec) (gsel s (mki s) ae aec) (gsel s (mkd s) ae aec)).
+Proof.
+  intros [SI SV] (RKp & RKi & RKd) We Wec Le Lec.
+  unfold gsel, firesb.
+  unfold idx_cells in SI. unfold val_cells in SV. unfold idx_cells, val_cells.
+  remember (sc s) as c0 eqn:Ec0. destruct c0 as [I0 V0]. cbn [sidx sval] in SI, SV.
+  set (n := nfuzz s) in *. set (la := length ae) in *. set (lb := length aec) in *.
+  assert (Hla : (la <= length I0 /\ la <= length V0)%nat) by nia.
+  destruct (split_room I0 la (proj1 Hla)) as (EI & LI1 & LI2).
+  destruct (split_room V0 la (proj2 Hla)) as (EV & LV1 & LV2).
+  pose proof (walk_forward (nrule s) 0 e (me s) 0 ae We 0 [] (firstn la I0) (skipn la I0) [] (firstn la V0) (skipn la V0)
+                eq_refl LI1 eq_refl LV1) as W1.
+  cbn [app Nat.add] in W1. rewrite <- EI, <- EV in W1. fold la in W1.
+  unfold fuzzy_out_, fuzzy_out_gen. rewrite <- Ec0. rewrite W1. cbn [bind].
+  change (ofZ RO 0) with 0. change (ofZ RO 1) with 1.
+  destruct (Nat.eqb_spec la 0) as [Z|NZ].
+  { cbn [negb andb]. eexists. split; [|reflexivity]. cbn [sidx sval]. rewrite !app_length, !map_length. fold la. lia. }
+  cbn [negb andb].
+  set (I2 := skipn la I0) in *. set (V2 := skipn la V0) in *.
+  assert (Hlb : (lb <= length I2 /\ lb <= length V2)%nat) by nia.
+  destruct (split_room I2 lb (proj1 Hlb)) as (EI2 & LI3 & LI4).
+  destruct (split_room V2 lb (proj2 Hlb)) as (EV2 & LV3 & LV4).
+  pose proof (walk_forward (nrule s) 0 ec (mec s) la aec Wec 0 (map fst ae) (firstn lb I2) (skipn lb I2)
+                (map snd ae) (firstn lb V2) (skipn lb V2)) as W2.
+  rewrite !map_length in W2. fold la in W2. specialize (W2 ltac:(lia) LI3 ltac:(lia) LV3).
+  rewrite <- EI2, <- EV2 in W2. cbn [Nat.add] in W2. fold lb in W2.
+  rewrite W2. cbn [bind].
+  destruct (Nat.eqb_spec lb 0) as [Zb|NZb].
+  { cbn [negb andb]. eexists. split; [|reflexivity]. cbn [sidx sval]. rewrite !app_length, !map_length. fold la lb. lia. }
+  cbn [negb andb].
+  set (I3 := skipn lb I2) in *. set (V3 := skipn lb V2) in *.
+  assert (Hm : (la * lb <= length V3)%nat) by nia.
+  destruct (split_room V3 (la * lb) Hm) as (EV3 & LV5 & LV6).
+  pose proof (joint_rows_forward (fuzzy_opr RO (opr s)) (nrule s) la (la + lb) (map snd aec) (map fst aec ++ I3)
+                (skipn (la * lb) V3) (map fst ae) (map snd ae) [] (map snd ae ++ map snd aec) (firstn (la * lb) V3) 0 0%nat 0%nat) as J.
+  rewrite !app_length, !map_length in J. fold la lb in J.
+  specialize (J eq_refl eq_refl ltac:(lia) LV5).
+  rewrite <- EV3 in J. cbn [app Nat.add] in J. rewrite <- (app_assoc (map snd ae) (map snd aec) V3) in J.
+  assert (P1 : forall (k : nat) (a : R), nth_error (map snd ae) k = Some a ->
+               nth_error (map snd ae ++ map snd aec) k = Some a) by (intros k a H; apply nth_error_app_some; exact H).
+  assert (P2 : forall (k : nat) (b : R), nth_error (map snd aec) k = Some b ->
+               nth_error (map snd ae ++ map snd aec) (la + k) = Some b).
+  { intros k b H. rewrite nth_error_app2 by (rewrite map_length; fold la; lia). rewrite map_length. fold la.
+    replace (la + k - la)%nat with k by lia. exact H. }
+  specialize (J P1 P2). rewrite J. cbn [bind].
+  fold (jw s ae aec). fold (jsum s ae aec).
+  set (c3 := {| sidx := map (fun k : nat => (k * nrule s)%nat) (map fst ae) ++ map fst aec ++ I3;
+                sval := ((map snd ae ++ map snd aec) ++ jw s ae aec) ++ skipn (la * lb) V3 |}).
+  assert (Sz : length (sidx c3) = (2 * n)%nat /\ length (sval c3) = (n * (2 + n))%nat).
+  { unfold c3. cbn [sidx sval]. unfold jw. rewrite !app_length, !map_length, wmat_length, !map_length. fold la lb.
+    unfold I3, V3, I2, V2 in *. rewrite !skipn_length in *. nia. }
+  exists c3. split; [exact Sz|].
+  unfold gtb. cbn [ltb div R13_ops].
+  destruct (Rltb_spec 0 (jsum s ae aec)) as [Pos|NPos]; cbn [negb]; [|reflexivity].
+  assert (Fe : Forall (fun q => (fst q < nrule s)%nat) ae).
+  { eapply Forall_impl; [|exact (walk_spec_idx _ _ _ _ _ We)]. cbn. intros q Hq. lia. }
+  assert (Fec : Forall (fun q => (fst q < nrule s)%nat) aec).
+  { eapply Forall_impl; [|exact (walk_spec_idx _ _ _ _ _ Wec)]. cbn. intros q Hq. lia. }
+  assert (Hr : forall t r, nth_error (map (fun k => (k * nrule s)%nat) (map fst ae)) t = Some r ->
+                           nth_error (sidx c3) (0 + t) = Some r).
+  { intros t r H. unfold c3. cbn [sidx Nat.add]. apply nth_error_app_some. exact H. }
+  assert (Hw : forall t w, nth_error (jw s ae aec) t = Some w -> nth_error (sval c3) (la + lb + 0 + t) = Some w).
+  { intros t w H. unfold c3. cbn [sval]. apply nth_error_app_some.
+    rewrite nth_error_app2 by (rewrite app_length, !map_length; fold la lb; lia).
+    rewrite app_length, !map_length. fold la lb. replace (la + lb + 0 + t - (la + lb))%nat with t by lia. exact H. }
+  assert (Hj : forall t j, nth_error (map fst aec) t = Some j -> nth_error (sidx c3) (la + t) = Some j).
+  { intros t j H. unfold c3. cbn [sidx]. rewrite nth_error_app2 by (rewrite !map_length; fold la; lia).
+    rewrite !map_length. fold la. replace (la + t - la)%nat with t by lia. apply nth_error_app_some. exact H. }
+  pose proof (defuzz_forward s (mkp s) c3 la (la + lb) ae aec (1 / jsum s ae aec) RKp Fe Fec eq_refl Hr Hw Hj) as D1.
+  pose proof (defuzz_forward s (mki s) c3 la (la + lb) ae aec (1 / jsum s ae aec) RKi Fe Fec eq_refl Hr Hw Hj) as D2.
+  pose proof (defuzz_forward s (mkd s) c3 la (la + lb) ae aec (1 / jsum s ae aec) RKd Fe Fec eq_refl Hr Hw Hj) as D3.
+  fold lb in D1, D2, D3. rewrite D1. cbn [bind]. rewrite D2. cbn [bind]. rewrite D3. cbn [bind]. reflexivity.
+Qed.
+
+(* ------------------------------------------------------------------------------------------------ sums *)
+Lemma fold_Rplus_acc l : forall acc, fold_left Rplus l acc = acc + fold_left Rplus l 0.
+Proof.
+  induction l as [|x l IH]; intros acc; cbn; [lra|]. rewrite (IH (acc + x)), (IH (0 + x)). lra.
+Qed.
+Lemma sum_nonneg l : Forall (fun x => 0 <= x) l -> 0 <= fold_left Rplus l 0.
+Proof. induction 1 as [|x l Hx _ IH]; cbn; [lra|]. rewrite fold_Rplus_acc. lra. Qed.
+Lemma sum_pos l : Forall (fun x => 0 < x) l -> l <> [] -> 0 < fold_left Rplus l 0.
+Proof.
+  intros F N. destruct F as [|x l Hx F]; [congruence|]. cbn. rewrite fold_Rplus_acc.
+  assert (0 <= fold_left Rplus l 0) by (apply sum_nonneg; eapply Forall_impl; [|exact F]; cbn; intros; lra). lra.
+Qed.
+Lemma sum_zero_iff l : Forall (fun x => 0 <= x) l -> (fold_left Rplus l 0 = 0 <-> Forall (fun x => x = 0) l).
+Proof.
+  induction 1 as [|x l Hx F IH]; cbn.
+  - split; [constructor|reflexivity].
+  - rewrite fold_Rplus_acc. pose proof (sum_nonneg l F) as S. split.
+    + intros E. constructor; [lra|]. apply IH. lra.
+    + intros E. inversion E as [|? ? E1 E2]. subst. apply IH in E2. lra.
+Qed.
+
+Lemma wmat_Forall (P : R -> Prop) f ve vec :
+  Forall P (wmat f ve vec) <-> (forall a b, In a ve -> In b vec -> P (f a b)).
+Proof.
+  unfold wmat, wrow. rewrite Forall_forall. split.
+  - intros H a b Ha Hb. apply H. apply in_flat_map. exists a. split; [exact Ha|]. apply in_map. exact Hb.
+  - intros H w Hw. apply in_flat_map in Hw. destruct Hw as (a & Ha & Hw). apply in_map_iff in Hw. destruct Hw as (b & <- & Hb).
+    apply H; assumption.
+Qed.
+Lemma wmat_nonempty f ve vec : ve <> [] -> vec <> [] -> wmat f ve vec <> [].
+Proof. intros H1 H2 E. apply (f_equal (@length R)) in E. rewrite wmat_length in E. destruct ve; [congruence|]. destruct vec; [congruence|]. cbn in E. lia. Qed.
+
+(* weighted mean of consequents: between the smallest and the largest of them *)
+Lemma dotacc_bounds lo hi : forall ws cs accw accd,
+  length ws = length cs -> Forall (fun w => 0 <= w) ws -> Forall (fun c => lo <= c <= hi) cs ->
+  lo * accw <= accd <= hi * accw ->
+  lo * fold_left Rplus ws accw <= dotacc ws cs accd <= hi * fold_left Rplus ws accw.
+Proof.
+  induction ws as [|w ws IH]; intros cs accw accd Hl Fw Fc Hacc.
+  - destruct cs; [|discriminate]. cbn. exact Hacc.
+  - destruct cs as [|c cs]; [discriminate|]. inversion Fw as [|? ? Hw Fw']. inversion Fc as [|? ? Hc Fc']. subst.
+    unfold dotacc. cbn [combine fold_left fst snd]. apply IH; [cbn in Hl; lia|assumption|assumption|]. nra.
+Qed.
+Lemma weighted_mean_bounds lo hi ws cs :
+  length ws = length cs -> Forall (fun w => 0 <= w) ws -> Forall (fun c => lo <= c <= hi) cs ->
+  0 < fold_left Rplus ws 0 ->
+  lo <= dotacc ws cs 0 * (1 / fold_left Rplus ws 0) <= hi.
+Proof.
+  intros Hl Fw Fc Hs. pose proof (dotacc_bounds lo hi ws cs 0 0 Hl Fw Fc ltac:(lra)) as B.
+  set (S := fold_left Rplus ws 0) in *. set (D := dotacc ws cs 0) in *.
+  assert (Hi : 0 < / S) by (apply Rinv_0_lt_compat; exact Hs).
+  unfold Rdiv. rewrite Rmult_1_l. split.
+  - replace lo with (lo * S * / S) by (field; lra). apply Rmult_le_compat_r; lra.
+  - replace hi with (hi * S * / S) by (field; lra). apply Rmult_le_compat_r; lra.
+Qed.
+
+(* ------------------------------------------------------------------------------------------------ the statements *)
+Definition unit_vals (l : list (nat * R)) : Prop := Forall (fun q => 0 < snd q <= 1) l.
+
+Lemma in_map_snd (l : list (nat * R)) a : In a (map snd l) -> exists q, In q l /\ snd q = a.
+Proof. intros H. apply in_map_iff in H. destruct H as (q & E & H). exists q. split; assumption. Qed.
+
+Lemma jw_Forall (P : R -> Prop) s ae aec :
+  (forall a b, In a (map snd ae) -> In b (map snd aec) -> P (fuzzy_opr RO (opr s) a b)) -> Forall P (jw s ae aec).
+Proof. intros H. unfold jw. apply wmat_Forall. exact H. Qed.
+
+Lemma unit_vals_in l a : unit_vals l -> In a (map snd l) -> 0 < a <= 1.
+Proof. intros U H. apply in_map_snd in H. destruct H as (q & Hq & <-). unfold unit_vals in U. rewrite Forall_forall in U. apply U. exact Hq. Qed.
+
+Lemma jw_nonneg s ae aec : unit_vals ae -> unit_vals aec -> Forall (fun w => 0 <= w) (jw s ae aec).
+Proof.
+  intros Ue Uec. apply jw_Forall. intros a b Ha Hb. apply opr_weight_nonneg; eapply unit_vals_in; eassumption.
+Qed.
+
+(* the joint membership sum is positive - the division 1/sum is defined - for every operator except the bounded product *)
+Theorem joint_sum_positive s ae aec :
+  opr s <> 3%nat -> ae <> [] -> aec <> [] -> unit_vals ae -> unit_vals aec -> 0 < jsum s ae aec.
+Proof.
+  intros Hk Ne Nec Ue Uec. unfold jsum. apply sum_pos.
+  - apply jw_Forall. intros a b Ha Hb. apply opr_weight_pos; [exact Hk| |]; eapply unit_vals_in; eassumption.
+  - unfold jw. apply wmat_nonempty; intros E; apply map_eq_nil in E; congruence.
+Qed.
+
+(* for the bounded product the sum vanishes exactly when no pair of active memberships sums above 1 *)
+Theorem bounded_sum_zero_iff s ae aec :
+  opr s = 3%nat -> unit_vals ae -> unit_vals aec ->
+  (~ 0 < jsum s ae aec <-> (forall a b, In a (map snd ae) -> In b (map snd aec) -> a + b <= 1)).
+Proof.
+  intros Hk Ue Uec. pose proof (jw_nonneg s ae aec Ue Uec) as NN. pose proof (sum_nonneg _ NN) as S0. fold (jsum s ae aec) in S0.
+  pose proof (sum_zero_iff _ NN) as Z. fold (jsum s ae aec) in Z. split.
+  - intros H a b Ha Hb. assert (E : jsum s ae aec = 0) by lra. apply Z in E. unfold jw in E. rewrite wmat_Forall in E.
+    specialize (E a b Ha Hb). rewrite Hk in E. cbn [fuzzy_opr] in E. apply cap_bounded_zero_iff. exact E.
+  - intros H. assert (E : jsum s ae aec = 0); [|lra]. apply Z. unfold jw. apply wmat_Forall. intros a b Ha Hb.
+    rewrite Hk. cbn [fuzzy_opr]. apply cap_bounded_zero_iff. apply H; assumption.
+Qed.
+
+Lemma cmat_Forall (P : R -> Prop) m rows js :
+  (forall r j, In r rows -> In j js -> P (nth (r + j) m 0)) -> Forall P (cmat m rows js).
+Proof.
+  intros H. unfold cmat. rewrite Forall_forall. intros c Hc. apply in_flat_map in Hc. destruct Hc as (r & Hr & Hc).
+  apply in_map_iff in Hc. destruct Hc as (j & <- & Hj). apply H; assumption.
+Qed.
+Lemma cmat_length m rows js : length (cmat m rows js) = (length rows * length js)%nat.
+Proof. unfold cmat. induction rows as [|r rows IH]; cbn; [reflexivity|]. rewrite app_length, map_length, IH. reflexivity. Qed.
+
+(* the offset is a weighted mean of the consequents of the active rules: between the smallest and the largest *)
+Theorem gains_convex s m ae aec lo hi :
+  fires s ae aec -> unit_vals ae -> unit_vals aec ->
+  (forall i j, In i (map fst ae) -> In j (map fst aec) -> lo <= nth (i * nrule s + j) m 0 <= hi) ->
+  lo <= goff s (Some m) ae aec <= hi.
+Proof.
+  intros (Ne & Nec & Pos) Ue Uec Hc. unfold goff, jsum in *. apply weighted_mean_bounds.
+  - unfold jw, jcons. rewrite wmat_length, cmat_length, !map_length. reflexivity.
+  - apply jw_nonneg; assumption.
+  - unfold jcons. apply cmat_Forall. intros r j Hr Hj. apply in_map_iff in Hr. destruct Hr as (i & <- & Hi). apply Hc; assumption.
+  - exact Pos.
+Qed.
+
+(* a_pid_fuzzy_out_ as a whole, under the documented sizing *)
+Theorem fuzzy_out_gains s ec e ae aec :
+  sized s -> rules_ok s ->
+  walk_spec (nrule s) 0 e (me s) = Some ae -> walk_spec (nrule s) 0 ec (mec s) = Some aec ->
+  (length ae <= nfuzz s)%nat -> (length aec <= nfuzz s)%nat ->
+  exists s', fuzzy_out_ RO s ec e = Ok s' /\ sized s' /\ same_setup s s' /\
+    kp (fpid s') = bkp s + gsel s (mkp s) ae aec /\
+    ki (fpid s') = bki s + gsel s (mki s) ae aec /\
+    kd (fpid s') = bkd s + gsel s (mkd s) ae aec /\
+    sum (fpid s') = sum (fpid s) /\ out (fpid s') = out (fpid s) /\ err (fpid s') = err (fpid s).
+Proof.
+  intros Sz Rk We Wec Le Lec. destruct (fuzzy_out_forward s ec e ae aec Sz Rk We Wec Le Lec) as (c' & (S1 & S2) & E).
+  eexists. split; [exact E|]. split; [split; cbn; assumption|]. split; [apply fuzzy_exit_setup|]. cbn. repeat split.
+Qed.
+
+Lemma gsel_cases s m ae aec :
+  (fires s ae aec /\ gsel s m ae aec = goff s m ae aec) \/ (~ fires s ae aec /\ gsel s m ae aec = 0).
+Proof.
+  unfold gsel, firesb, fires.
+  destruct (Nat.eqb_spec (length ae) 0) as [Z|NZ]; cbn [negb andb].
+  { right. split; [|reflexivity]. intros (N & _). apply N. apply length_zero_iff_nil. exact Z. }
+  destruct (Nat.eqb_spec (length aec) 0) as [Zb|NZb]; cbn [negb andb].
+  { right. split; [|reflexivity]. intros (_ & N & _). apply N. apply length_zero_iff_nil. exact Zb. }
+  destruct (Rltb_spec 0 (jsum s ae aec)) as [P|P].
+  - left. split; [|reflexivity]. repeat split; [intros E; subst; cbn in NZ; lia|intros E; subst; cbn in NZ; cbn in NZb; lia|exact P].
+  - right. split; [|reflexivity]. intros (_ & _ & Q). contradiction.
+Qed.
+
+(* every derived gain is finite and lies between base + smallest and base + largest active consequent; it IS the base gain
+   when no rule fires (no active set, or a non-positive joint membership sum: the repaired code skips the division) or
+   when the rule base pointer is NULL *)
+Theorem gain_between s m ae aec lo hi :
+  unit_vals ae -> unit_vals aec ->
+  (forall l, m = Some l -> forall i j, In i (map fst ae) -> In j (map fst aec) -> lo <= nth (i * nrule s + j) l 0 <= hi) ->
+  (fires s ae aec /\ m <> None /\ lo <= gsel s m ae aec <= hi) \/ ((~ fires s ae aec \/ m = None) /\ gsel s m ae aec = 0).
+Proof.
+  intros Ue Uec Hc. destruct (gsel_cases s m ae aec) as [[F E]|[F E]].
+  - destruct m as [l|].
+    + left. split; [exact F|]. split; [discriminate|]. rewrite E. apply gains_convex; try assumption. apply Hc. reflexivity.
+    + right. split; [right; reflexivity|]. rewrite E. reflexivity.
+  - right. split; [left; exact F|exact E].
+Qed.
